@@ -689,21 +689,31 @@ func ruleC10(c *Ctx, r *Report) {
 				if !ok || calleeKey(&call.Call) != setKey {
 					return false
 				}
-				// argument provenance: result #0 of generator / reader with err==nil established
-				ex, ok := call.Call.Args[0].(*ssa.Extract)
-				if !ok || ex.Index != 0 {
-					return false
+				// argument provenance: result #0 of generator / reader with err==nil established,
+				// for every definition the argument can have at this call
+				srcs := sourcesAt(call.Call.Args[0], call.Block())
+				for _, vs := range srcs {
+					ex, ok := peel(vs.Val).(*ssa.Extract)
+					if !ok || ex.Index != 0 {
+						return false
+					}
+					src, ok := ex.Tuple.(*ssa.Call)
+					if !ok {
+						return false
+					}
+					k := calleeKey(&src.Call)
+					if k != genKey && k != readKey {
+						return false
+					}
+					_, isNil := factNil(allFacts(call.Block()), extractOf(src, 1))
+					if !isNil {
+						_, isNil = factNil(allFacts(vs.At), extractOf(src, 1))
+					}
+					if !isNil {
+						return false
+					}
 				}
-				src, ok := ex.Tuple.(*ssa.Call)
-				if !ok {
-					return false
-				}
-				k := calleeKey(&src.Call)
-				if k != genKey && k != readKey {
-					return false
-				}
-				_, isNil := factNil(allFacts(call.Block()), extractOf(src, 1))
-				return isNil
+				return len(srcs) > 0
 			},
 			isEnd: func(i ssa.Instruction) (string, bool) {
 				if call, ok := i.(*ssa.Call); ok && procKeys[calleeKey(&call.Call)] {
